@@ -237,3 +237,49 @@ PROPERTIES = {
         bounded_rule='formula texts / dictionary models; distinct = distinct cases',
     ),
 }
+
+
+# ====================================================================================
+# proved part: "a formula's exported text parses back to the same formula" rests on the exported text of every node being
+# the fully parenthesised rendering of its operands' texts.  The rendering functions are under contract for C01; the same
+# contracts are instantiated here because they carry this half of C09 (String literals: the content is written back between
+# double quotes exactly as it was read, i.e. with its doubled quotes).
+from contracts import c01_grammar as _C01
+from pyvc.contract import Contract, StrT
+
+CONTRACTS = []
+for _nm9 in _C01._OPS2 + [' ', ',', ':']:
+    _C01._set_expr_contract(_nm9, 2, prop='C09', out=CONTRACTS, prefix='export:')
+for _nm9 in ('u-', 'u+', '%'):
+    _C01._set_expr_contract(_nm9, 1, prop='C09', out=CONTRACTS, prefix='export:')
+for _k9 in range(4):
+    _C01._fn_set_expr_contract(_k9, prop='C09', out=CONTRACTS, prefix='export:')
+
+
+def lemma_string_round_trip(self):
+    """Exported text of a text literal, and the value it denotes."""
+    self.set_expr()
+    return self.attr['expr'], self.compile()
+
+
+c_str9 = Contract(lambda: lemma_string_round_trip, dict(self=_C01._tokT('formulas.tokens.operand:String', name=StrT())), 'C09',
+                  name='export:String.set_expr+compile', use=[], frame=('self',))
+CONTRACTS.append(c_str9)
+
+
+@c_str9.ensures('text-literal-is-exported-as-read-and-denotes-its-unescaped-content', 'P')
+def _(self, result):
+    name = self.attr['name']
+    return result[0] == '"' + name + '"' and result[1] == name.replace('""', '"')
+
+
+@c_str9.canary('canary:quotes-stripped')
+def _(self, result):
+    return result[0] == self.attr['name']
+
+
+PROPERTIES['C09']['explanation'] = (
+    'Proved: the exported text of every operator, function-call and text-literal node is the fully parenthesised rendering of its '
+    'operands\' texts (the set_expr contracts of C01 instantiated for C09; a text literal is written back between double quotes as read and '
+    'denotes its content with doubled quotes undone) - so, by structural induction and C01, a formula\'s exported text denotes the same tree. '
+    + PROPERTIES['C09']['explanation'].replace('Partial, bounded stand-in:', 'Bounded stand-in for the rest:'))
